@@ -73,6 +73,9 @@ let run_op (op : string) (args : string list) : string =
     string_of_res
       (fun calls -> String.concat " " (List.map (function CPush b -> "p:" ^ String.sub (hex_of_bytes [ b ]) 1 2 | CExtend bs -> "e:" ^ hex_of_bytes bs) calls))
       (to_recorder (ov = "1") (value_of_sexp (parse_sexp v)))
+  | "crcalg", [ alg ] ->
+    let a, _ = alg_of_string alg in
+    if alg_okb a then "1" else "0"
   | "crc", [ alg; bs ] ->
     let a, _ = alg_of_string alg in
     hex_of_n (crc a (bytes_of_hex bs))
